@@ -711,9 +711,12 @@ def poolCount (k : Nat) : List FrontMsg → Nat
   | [] => 0
   | m :: r => (if msgOp m = some k then 1 else 0) + poolCount k r
 
+/-- how often operation `k` has been finished: its oneshot completed (`complete`) or found
+abandoned (`dropped`) -/
 def compCount (k : Nat) : List Effect → Nat
   | [] => 0
   | .complete t _ :: r => (if t.op = k then 1 else 0) + compCount k r
+  | .dropped t _ :: r => (if t.op = k then 1 else 0) + compCount k r
   | _ :: r => compCount k r
 
 def coreCount (k : Nat) (c : Core) : Nat := reqCount k c.mgr.requests + batCount k c.mgr.batches
